@@ -135,6 +135,19 @@ def _io_error_new(ctx, a, c):
     return Opaque("io::Error(new)")
 
 
+def extract_duplex(p, m):
+    reqs = p.ctx.reqs
+    alive = [bool(m.eval(q.f[0].alive, model_completion=True)) for q in reqs]
+    sizes = [m.eval(q.f[1], model_completion=True).as_long() for q in reqs]
+    # the native driver queues the clients that gave up first, then the waiting ones
+    order = [i for i, a in enumerate(alive) if not a] + [i for i, a in enumerate(alive) if a]
+    scn = {"family": "duplex_cancelled_connect", "cancelled_first": alive.count(False), "waiting": alive.count(True), "bufsizes": ",".join(str(min(sizes[i], 1 << 20)) for i in order)}
+    capv = m.eval(z3.BitVec("listener_max_buf_size", 64), model_completion=True).as_long()
+    if any(str(d).startswith("listener_max_buf_size") for d in m.decls()):
+        scn["cap"] = min(capv, 1 << 20)
+    return scn
+
+
 def obligations(prog, src, tier, seed):
     obs = []
     tcp_info(prog, obs)
@@ -158,7 +171,9 @@ def obligations(prog, src, tier, seed):
             tail = ctx.choose([(True, "pending"), (True, "closed")], "then")
             rx = MpscReceiverV(reqs + [tail])
             ctx.reqs, ctx.tail, ctx.rx = reqs, tail, rx
-            inc = Agg("struct:DuplexIncoming", [rx, none()])
+            # the listener's own cap on the buffer size: unset, or any value (the clients' requests are symbolic too)
+            cap = ctx.choose([(True, False), (True, True)], "listener buffer cap configured")
+            inc = Agg("struct:DuplexIncoming", [rx, some(z3.BitVec("listener_max_buf_size", 64)) if cap else none()])
             cell = Cell(inc, "incoming")
             return ctx.exec_fn(fn, [Ref(cell), Ref(Cell(Opaque("Context"), "cx"))])
         return run
@@ -201,7 +216,7 @@ def obligations(prog, src, tier, seed):
                     "bound": f"0..={K} queued connection requests (quick 2 / thorough 3), each client still waiting or gone (symbolic), followed by an empty queue or a closed channel; loop unrolled <= {K + 3}",
                     "doc": "Err / end-of-stream only when the listener's channel is closed; a client that cancelled its connect is skipped, the first waiting client is acknowledged",
                     "run": mk(fn, is_stream), "check": mk_check(is_stream), "loop_bound": K + 4, "crosscheck": False,
-                    "cex_extract": lambda p, m: {"family": "duplex_cancelled_connect", "cancelled_first": sum(1 for q in p.ctx.reqs if not bool(m.eval(q.f[0].alive, model_completion=True))), "waiting": sum(1 for q in p.ctx.reqs if bool(m.eval(q.f[0].alive, model_completion=True)))},
+                    "cex_extract": extract_duplex,
                     "judge": lambda scn, out: out.get("result", "").startswith(("panic", "crash")) or out.get("accept") == "err" or (int(scn.get("waiting", 0)) > 0 and out.get("served") != "1")})
     return obs
 
